@@ -22,6 +22,7 @@
 (*                   write fails)                                          *)
 (*   Upgrade         a new protocol version comes into force               *)
 (*   ResolveAll      DocumentHandler.ResolveDocument of every DID          *)
+(*   ResolveHist     ... of every DID at every version time and version id *)
 (*                                                                         *)
 (* Operations reuse the shapes and the state machine of SidetreeCore; the  *)
 (* expected resolution of a DID is ResolveRef of its stored (published)    *)
@@ -170,12 +171,25 @@ ResolveAll ==
   /\ H([a |-> "ResolveAll"])
   /\ UNCHANGED <<client, queue, unpub, ledger, observed, store, curver, nsub, faults, deferredEver>>
 
+(* historical resolution (C06) through the document handler: at version time T the operations anchored at or before  *)
+(* T count (unpublished ones carry the submission time: after everything anchored); at version id i (the reference    *)
+(* of ledger entry i) the published operations up to and including the DID's operation of that entry; a DID without    *)
+(* an operation in entry i does not know that version id                                                              *)
+HistT(d, T) == View(ResolveRef(TruncT(OpsOf(d), T)))
+HistV(d, i) == IF KnownV(OpsOf(d), <<i, i>>) THEN View(ResolveRef(TruncV(OpsOf(d), <<i, i>>))) ELSE View(NoState)
+ResolveHist ==
+  /\ last' = [a |-> "ResolveHist",
+              times    |-> [d \in Dids |-> [T \in 1..Len(ledger) |-> HistT(d, T)]],
+              versions |-> [d \in Dids |-> [i \in 1..Len(ledger) |-> HistV(d, i)]]]
+  /\ H([a |-> "ResolveHist"])
+  /\ UNCHANGED <<client, queue, unpub, ledger, observed, store, curver, nsub, faults, deferredEver>>
+
 Next == \/ \E d \in Dids, k \in {"C", "U", "R", "D"}, af \in BOOLEAN : Submit(d, k, af)
         \/ \E fl \in BOOLEAN : Flush(fl)
         \/ Garbage \/ Dup
         \/ \E f \in {"none", "cas", "put"} : Observe(f)
         \/ Upgrade
-        \/ ResolveAll
+        \/ ResolveAll \/ ResolveHist
 
 NextGen == Len(hist) < MaxSteps /\ Next
 Spec == Init /\ [][Next]_vars
@@ -193,6 +207,13 @@ FailedTxnIsolated == \A i \in 1..observed : ledger[i].kind = "garbage" => {o \in
 NoTrace == /\ \A i \in DOMAIN queue : queue[i].id \in 1..nsub
            /\ \A u \in unpub : u.id \in 1..nsub
            /\ \A o \in store : \E i \in 1..Len(ledger) : \E j \in DOMAIN ledger[i].ops : ledger[i].ops[j].id = o.id
+(* C06 at the pipeline level: what a version time at or before the last observed entry resolves to never changes again *)
+OpsOfX(S, U, d) == {[sh |-> o.sh, t |-> o.t, n |-> o.n, pub |-> TRUE] : o \in {x \in S : x.d = d}}
+                   \cup {[sh |-> o.sh, t |-> FarFuture, n |-> o.id, pub |-> FALSE] : o \in {x \in U : x.d = d}}
+HistoryStable ==
+  [][\A d \in Dids : \A T \in 1..observed :
+        View(ResolveRef(TruncT(OpsOfX(store', unpub', d), T))) = View(ResolveRef(TruncT(OpsOfX(store, unpub, d), T)))]_vars
+
 (* C04 / C20 *)
 DeactivatedRefuses == \A d \in Dids : (Resolved(d).exists /\ Resolved(d).deact) => ~IntakeAccepts(d, "U")
 
